@@ -3,6 +3,8 @@
 
 package slog
 
+import "time"
+
 // Contracts for the lvc verifier (see /verif/DESIGN.md). This file is only
 // compiled with -tags=verif. It holds //@ clauses (read by lvc), ghost state
 // (never touched by executable code) and pure, loop-free spec functions that
@@ -12,6 +14,8 @@ package slog
 var ghost struct {
 	debugMode bool // what states.Env().GetDebugMode() returns (process-wide debug switch)
 	emits     int  // number of records that entered (*Entry).logContext
+
+	utcIn, utcOut time.Time // argument and result of the latest time.Time.UTC call (C16)
 }
 
 // specTreat: the built-in level a severity is compared as (C01 "treated as").
@@ -701,3 +705,62 @@ func specLastBool(b []bool, def bool) bool {
 //@   ensures [C11.derive] s.jsonMode == (specFormat(e) == fmtJSON) && s.noColor == (specFormat(e) != fmtColor)
 //@   ensures [C16.copy] s.layout == e.timeLayout && s.utcTime == e.modeUTC
 //@   ensures len(s.buf) == 0
+
+// ---------------------------------------------------------------- C16 timestamps
+
+// RFC3339Nano0 is time.RFC3339Nano (the default of SetTimeFormat), spelled out because
+// contract expressions do not resolve constants of imported packages.
+const RFC3339Nano0 = time.RFC3339Nano
+
+// specWantUTC: the record's instant is shown in UTC (property C16): the logger is in
+// UTC mode, or no mode was chosen and the local-time flag is not set.
+func specWantUTC(s *PrintCtx) bool {
+	return s.utcTime == 2 || (s.utcTime == 0 && flags&LlocalTime == 0)
+}
+
+// specLayout: the logger's own layout if set, else the one selected by the
+// date/time/microseconds flags, else TimeNano.
+func specLayout(s *PrintCtx) string {
+	if s.layout != "" {
+		return s.layout
+	}
+	if l, ok := defaultLayouts[flags&Ldatetimeflags]; ok {
+		return l
+	}
+	return TimeNano
+}
+
+//@ func (*PrintCtx).pcAppendByte
+//@   trusted
+//@   requires s != nil
+//@   assigns s.buf, s.lastRead, s.buf[:]
+//@   ensures grown(s.buf, old(s.buf))
+
+//@ func (*PrintCtx).appendTimestamp
+//@   props C16
+//@   requires s != nil
+//@   assigns s.buf, s.lastRead, s.buf[:], ghost.utcIn, ghost.utcOut
+//@   at call (time.Time).AppendFormat assert [C16.layout] callee.layout == specLayout(s)
+//@   at call (time.Time).AppendFormat assert [C16.zone] implies(!specWantUTC(s), callee.t == z)
+//@   at call (time.Time).AppendFormat assert [C16.zone] implies(specWantUTC(s), callee.t == ghost.utcOut && ghost.utcIn == z)
+//@   at call (time.Time).AppendFormat assert [C16.buf] callee.b == s.buf
+
+//@ func (*Entry).SetUTCMode
+//@   props C16 C10
+//@   requires s != nil
+//@   assigns s.modeUTC
+//@   ensures [C16.mode] s.modeUTC == ite(specLastBool(b, true), 2, 1)
+//@   ensures [C10.ret] result == s
+//@   loop 1 invariant rangeindex >= -1 && rangeindex < len(b) || rangeindex == -1
+//@   loop 1 invariant mode == ite(rangeindex < 0, 2, ite(b[rangeindex], 2, 1))
+
+//@ func (*Entry).SetTimeFormat
+//@   props C16 C10
+//@   requires s != nil
+//@   assigns s.timeLayout
+//@   ensures [C16.layout0] implies(len(layout) == 0, s.timeLayout == RFC3339Nano0)
+//@   ensures [C16.layout1] implies(len(layout) == 1 && layout[0] != "", s.timeLayout == layout[0])
+//@   ensures [C10.ret] result == s
+//@   loop 1 invariant rangeindex >= -1 && rangeindex < len(layout) || rangeindex == -1
+//@   loop 1 invariant implies(rangeindex < 0, lay == RFC3339Nano0)
+//@   loop 1 invariant implies(rangeindex == 0 && layout[0] != "", lay == layout[0])
